@@ -44,6 +44,18 @@ CHECKS.update({
    note="program grammar of StateInterp.tla (depth <= 3); save inside cond branches / nested jit / while are outside the claim and the grammar; where scans and vmaps nest only the set of axes is Contract-level, their order is informational",
    technique="TLA+ spec (StateInterp.tla: namespace-stack interpreter vs denotational Collected) checked by TLC; every exported program built as a real function and run as state(f), jit, seed, vmap",
    text="TLC checks the interpreter model (namespace stack, fresh interpreter per scan body, merge) against the denotational collected dictionary for every program of the grammar (namespaces around/inside scans, nested scans, vmaps, later writes) and exports the expected dictionaries; each program is built as a real function: result unchanged by state, collected names and arrays equal, eagerly, under jit, under seed, under vmap(state(f)), with jax.vmap and modular_vmap inside."),
+ "C18": dict(category="model_checking", design_ref="DESIGN.md §4 C18",
+   note="grid n <= 6 (quick) / 9 (thorough), thinning <= 3/4, chains <= 2/3; kernels: deterministic tracer, mh on a dyadic model, a composite kernel; independence of chains is checked as 'not identical', not statistically",
+   technique="TLA+ spec (Chain.tla: scan + arange slicing vs retained-step Contract) checked by TLC; every grid case run on the real chain() with a deterministic tracer kernel and with random kernels (slice identity)",
+   text="TLC checks the loop/slicing model against the Contract (retained steps burn_in+1, +thin, ...; accepts aligned; rate; count) for the whole grid and prints the expected iterates; each case is run on the real chain(): tracer kernel -> exact iterates/flags/rate/count (also per chain with a leading axis), random kernels -> chain(n,b,t) equals the [b::t] slice of the un-thinned run under the same key, retained traces coherent, chains not sharing randomness."),
+ "C12": dict(category="model_checking", design_ref="DESIGN.md §4 C12",
+   note="integer weight vectors in [0..MaxW]^N, N <= 4 (5 thorough); near-uniform/degenerate weights only as far as this grid contains them; float32 cumulative sums are compared at interval midpoints (no ties)",
+   technique="TLA+ spec (Resample.tla) checked by TLC (floor/ceil, exact expected counts, estimate preservation); every case replayed on the real resample() with scripted offset/ancestors; real-randomness runs validated by TLC (ResampleTrace.tla)",
+   text="TLC: for every weight vector and every offset interval systematic resampling gives floor/ceil(N w_i) copies, expected copies are exactly N w_i for both methods (sum over intervals / over all ancestor vectors with their mass), zero-weight particles are never copied, log_marginal_likelihood() is unchanged by the move; each case is replayed on the real resample() (ancestors recovered from unique ids, every trace leaf cross-checked against ONE source index, weights reset, diagnostic weights, randomness consumed); seeded real runs are validated by TLC: systematic ancestor vectors must be produced by some offset interval."),
+ "C10": dict(category="model_checking", design_ref="DESIGN.md §4 C10",
+   note="3-valued dyadic one-step state-space model, N in {2,3}, hand-composed pipelines of <= 5 moves, custom proposal = dyadic proposal given the observation; rejuvenation by mh on the latent; rejuvenation_smc's ESS-triggered composite is covered by its constituent moves only",
+   technique="TLA+ spec (SMC.tla) checked by TLC: proper weighting per move and E[Zhat] = evidence exactly (rational registers + POSTCONDITION) over all behaviours; behaviours replayed on the real smc module with scripted particle draws, ancestors, offsets and accept thresholds",
+   text="TLC enumerates every behaviour (all particle draws, ancestor vectors/offset intervals, accept patterns) of init/extend (default and custom proposals), resample (both methods) and rejuvenate(mh) pipelines and proves that the mass-weighted sum of exp(log_marginal_likelihood()) equals the exact evidence after every move; sampled behaviours are replayed on the real smc functions: per-particle choices, integer log weights and log_marginal_likelihood compared after every move, rejuvenation leaves weights untouched."),
 })
 
 PENDING = {}
